@@ -4,7 +4,7 @@ specs/Split.tla holds two descriptions of splitting (operational machine and
 declarative statement); SplitGen enumerates every word up to MaxLen segments
 (TLC BFS), checks the two against each other for every IFS setting
 (invariant ModelOK) and prints the cases; the driver expands every word with
-the real ExecEnv.Expand under every IFS setting, in three constructions
+the real ExecEnv.Expand under every IFS setting, in five constructions
 (literal text / text coming from parameter expansions); SplitCheck validates
 every record, recomputing the expectation from the segment ids."""
 import json
@@ -32,7 +32,7 @@ IFSNAMES = ["unset", "default", "sp_comma", "comma", "one", "empty", "sp_u1", "c
 
 
 def explain(rec, exp):
-    for variant in ("lit", "var", "arith"):
+    for variant in ("lit", "var", "arith", "dflt"):
         for i, n in enumerate(IFSNAMES):
             if exp is not None and rec["obs"][variant][i] != exp[i]:
                 return dict(segs=rec["segs"], variant=variant, ifs=n, expected=exp[i], observed=rec["obs"][variant][i],
@@ -42,8 +42,8 @@ def explain(rec, exp):
 
 def run(R):
     R.rule = ("cases = (word, IFS setting, construction): every word up to MaxLen segments over 15 segment kinds "
-              "(7 characters x unquoted/quoted + empty quotes) x 8 IFS settings x 3 constructions (literal / parameter "
-              "expansion / digits out of an arithmetic expansion); distinct_nontrivial = distinct words holding at least one unquoted delimiter candidate and one "
+              "(7 characters x unquoted/quoted + empty quotes) x 8 IFS settings x 5 constructions (literal / parameter "
+              "expansion / digits out of an arithmetic expansion / default word of ${nosuch:-word} / behind ~/ with IFS characters in HOME); distinct_nontrivial = distinct words holding at least one unquoted delimiter candidate and one "
               "other segment")
     R.assumptions = ["the statement's reading that empty fields without quoted material are dropped (so fields are the maximal "
                      "runs of non-delimiter positions) is checked against the operational rules inside TLC (ModelOK)",
@@ -74,7 +74,7 @@ def run(R):
         raise vlib.MachineryError("driver returned %d of %d" % (len(obs), len(cases)))
     bad = check_records(R, obs, "c14")
     R.exhaustive = True
-    R.evaluations = len(obs) * 24
+    R.evaluations = len(obs) * 40
     R.traces = len(obs)
     for rec in obs:
         s = rec["segs"]
